@@ -517,17 +517,33 @@ func ruleC01R5(r *Run) {
 	ok := len(flushCalls) == 1 && waitCall != nil && dominatesInstr(flushCalls[0], waitCall)
 	r.Check(dname+" flush before wait", ok, p.pos(drainFn.Pos()), dname, fmt.Sprintf("Flush calls: %d, cond wait found: %v; the explicit flush must dominate the wait for outstanding acks", len(flushCalls), waitCall != nil))
 	// the wait loop's exit condition reads both the buffer length and the store's List
-	lists := findCalls(drainFn, false, "/iscp.sentStorage.List")
+	lists := p.callsReaching(drainFn, 2, "/iscp.sentStorage.List") // directly, or in a helper such as hasOutstanding(ctx)
 	readsBuf := false
-	allInstrs(drainFn, func(ins ssa.Instruction) {
-		if u, ok := ins.(*ssa.UnOp); ok && u.Op == token.MUL && fieldKeyOfAddr(u.X) == fkSendBuffer {
-			readsBuf = true
+	var scanBuf func(f *ssa.Function, d int)
+	scanBuf = func(f *ssa.Function, d int) {
+		if f == nil || f.Blocks == nil || d > 1 {
+			return
 		}
-	})
+		allInstrs(f, func(ins ssa.Instruction) {
+			if u, ok := ins.(*ssa.UnOp); ok && u.Op == token.MUL && fieldKeyOfAddr(u.X) == fkSendBuffer {
+				readsBuf = true
+			}
+			if c, ok := ins.(*ssa.Call); ok {
+				if cal := c.Call.StaticCallee(); cal != nil && p.Analysed(cal) && recvTypeName(cal) == "Upstream" {
+					scanBuf(cal, d+1)
+				}
+			}
+		})
+	}
+	scanBuf(drainFn, 0)
 	r.Check(dname+" waits for empty store and buffer", len(lists) >= 1 && readsBuf, p.pos(drainFn.Pos()), dname, fmt.Sprintf("List calls: %d, reads sendBuffer: %v", len(lists), readsBuf))
 	// no success return bypasses the emptiness test: a nil error is returned only on paths through the store's List
 	if len(lists) >= 1 {
-		wit, why := successReturnWithout(drainFn, func(ins ssa.Instruction) bool { return isCallNamed(ins, "/iscp.sentStorage.List") })
+		isList := map[ssa.Instruction]bool{}
+		for _, l := range lists {
+			isList[l] = true
+		}
+		wit, why := successReturnWithout(drainFn, func(ins ssa.Instruction) bool { return isList[ins] })
 		where := p.pos(drainFn.Pos())
 		if wit != nil {
 			where = posOf(p, wit)
@@ -732,7 +748,7 @@ func ruleC01R7(r *Run, cut *cutInfo) {
 
 // ruleC01R8: the send buffer owns its slices.
 func ruleC01R8(r *Run) {
-	r.Begin("R8", "the send buffer owns its memory: every value stored into an element of Upstream.sendBuffer is a fresh slice (make) or append(x, …) whose base x is the buffer's own element or a fresh slice — never a slice handed in by the caller, which the caller may reuse while the chunk is buffered or kept for retransmission", 2)
+	r.Begin("R8", "the send buffer owns its memory: every value stored into an element of Upstream.sendBuffer is a fresh slice (make) or append(x, …) whose base x is the buffer's own element or a fresh slice — never a slice handed in by the caller, which the caller may reuse while the chunk is buffered or kept for retransmission", 1)
 	p := r.P
 	n := 0
 	for _, fn := range p.Funcs {
@@ -758,24 +774,45 @@ func ruleC01R8(r *Run) {
 				}
 				break
 			}
-			okv := false
 			detail := v.String()
-			switch x := v.(type) {
-			case *ssa.MakeSlice:
-				okv = true
-			case *ssa.Slice:
-				if _, isAlloc := x.X.(*ssa.Alloc); isAlloc {
-					okv = true
+			var owned func(v ssa.Value, d int) bool
+			owned = func(v ssa.Value, d int) bool {
+				if d > 4 {
+					return false
 				}
-			case *ssa.Call:
-				if b, isB := x.Call.Value.(*ssa.Builtin); isB && b.Name() == "append" {
-					bl := p.Leaves(x.Call.Args[0], provOpts{})
-					bad := leavesWithin(bl, []string{"elem:" + fkSendBuffer, "field:" + fkSendBuffer, "param:*", "field:/iscp.DataPointGroup.DataID", "recvfrom:*"})
-					fresh := hasLeaf(bl, "elem:"+fkSendBuffer) || hasLeafPrefix(bl, "alloc:")
-					okv = fresh && len(bad) == 0
-					detail = "append(base from [" + joinLeaves(bl) + "], …)"
+				for {
+					if ct, isCT := v.(*ssa.ChangeType); isCT {
+						v = ct.X
+						continue
+					}
+					break
 				}
+				switch x := v.(type) {
+				case *ssa.MakeSlice:
+					return true
+				case *ssa.Slice:
+					_, isAlloc := x.X.(*ssa.Alloc)
+					return isAlloc
+				case *ssa.Phi:
+					// every way the value can come about is owned (append result, or a fresh empty slice for a nil one)
+					for _, e := range x.Edges {
+						if !owned(e, d+1) {
+							return false
+						}
+					}
+					return len(x.Edges) > 0
+				case *ssa.Call:
+					if b, isB := x.Call.Value.(*ssa.Builtin); isB && b.Name() == "append" {
+						bl := p.Leaves(x.Call.Args[0], provOpts{})
+						bad := leavesWithin(bl, []string{"elem:" + fkSendBuffer, "field:" + fkSendBuffer, "param:*", "field:/iscp.DataPointGroup.DataID", "recvfrom:*"})
+						fresh := hasLeaf(bl, "elem:"+fkSendBuffer) || hasLeafPrefix(bl, "alloc:")
+						detail = "append(base from [" + joinLeaves(bl) + "], …)"
+						return fresh && len(bad) == 0
+					}
+				}
+				return false
 			}
+			okv := owned(v, 0)
 			r.Check(fmt.Sprintf("%s buffer store#%d", name, n), okv, posOf(p, mu), name, "value stored into the send buffer: "+detail)
 		})
 	}
